@@ -63,7 +63,7 @@ type vfConnScenarioCfg struct {
 	HB       string // "": the heartbeat keeps its real 1 s / 5 s pace (it hardly ever fires); "on": a beat every 1-3 ms,
 	// the node answering OPTIONS promptly / late / never / with an ERROR / with a frame of another kind / with an
 	// unparsable SUPPORTED; "dead": from some point on the node never answers OPTIONS again
-	TLimit int // value of the package variable TimeoutLimit during this scenario (such scenarios run alone)
+	TLimit  int // value of the package variable TimeoutLimit during this scenario (such scenarios run alone)
 	ErrKind int // writefail: what the failing socket reports (0 network error, 1 wraps DeadlineExceeded, 2 wraps Canceled)
 }
 
@@ -137,7 +137,7 @@ func vfRunConnScenario(cfg vfConnScenarioCfg) (events []map[string]interface{}, 
 	var nodeRecv, nodeSent, recvHandled, writesOK int64
 	var awg sync.WaitGroup                              // answer goroutines of the node
 	nrng := rand.New(rand.NewSource(cfg.Seed ^ 0x5eed)) // used under nmu only
-	var targetNC atomic.Value // *vfNodeConn of the connection under test (known once connect returned)
+	var targetNC atomic.Value                           // *vfNodeConn of the connection under test (known once connect returned)
 	var hbSeen, hbPaused, hbDeadFrom int64
 	hbDeadFrom = 1 << 40
 	hbrng := rand.New(rand.NewSource(cfg.Seed ^ 0x4b)) // used under nmu only
